@@ -124,6 +124,11 @@ def check(ctx, run):
                         problems.append(f"graph-breaking operator {s.op} applied to a value that depends on the model output")
                     if isinstance(s, Op) and s.op == "tensor" and any(isinstance(a, Term) and tainted(a, memo) for a in flatten(s.args)):
                         problems.append("torch.tensor(...) re-wraps a value that depends on the model output")
+                # parameters: the module evaluated on the way is the caller's own object, not a deep copy of it (a copy owns separate parameters:
+                # the gradient with respect to the original's is missing)
+                for s in walk(val):
+                    if isinstance(s, Sym) and "deepcopy" in s.tags:
+                        problems.append(f"a deep copy of {s.name.split('#')[0]} is evaluated in place of the object itself: its parameters receive no gradient")
                 # grad-mode regions
                 regions = [e for e in r["events"] if e["kind"] == "with_enter"]
                 for e in regions:
